@@ -87,7 +87,7 @@ const COMMENTS: &[&str] = &[
 pub fn render(p: &Program, spelling: &[u32], opts: RenderOpts) -> Rendered {
     let mut r = R {
         out: String::new(),
-        sp: Tape::new(spelling),
+        sp: Tape::new_cyclic(spelling),
         o: opts,
         st: RenderStats::default(),
         last: Last::None,
@@ -594,24 +594,31 @@ impl<'a> R<'a> {
     }
 
     fn poetic(&mut self, elems: &[PoeticElem]) {
+        // can an apostrophe suffix be glued onto what was written last?
+        let mut glue_ok = false;
         let mut first = true;
         for e in elems {
-            // commas are dropped by the parser: sprinkle them anywhere
-            if self.choice(self.o.layout, 8) == 7 {
+            let glued_suffix = matches!(e, PoeticElem::Suffix(s) if !s.starts_with('-'));
+            // commas are dropped by the parser: sprinkle them anywhere except in front of a glued suffix
+            if !(glued_suffix && glue_ok) && self.choice(self.o.layout, 8) == 7 {
                 self.sym(",");
+                glue_ok = false;
             }
             match e {
                 PoeticElem::Word(w) => {
                     self.gap(true);
-                    // a word directly after `.` is fine; after a number-looking word it cannot happen
+                    self.tok();
                     self.push_raw(w);
                     self.last = Last::Word;
+                    glue_ok = true;
                 }
                 PoeticElem::Suffix(s) => {
                     if let Some(rest) = s.strip_prefix('-') {
-                        match self.choice(self.o.layout, 4) {
+                        let form = if first { 1 } else { self.choice(self.o.layout, 4) };
+                        self.tok();
+                        match form {
                             0 => {
-                                if first {
+                                if !glue_ok {
                                     self.push_raw(" ");
                                 }
                                 self.push_raw("-");
@@ -626,14 +633,25 @@ impl<'a> R<'a> {
                                 self.push_raw(rest)
                             }
                             _ => {
+                                if !glue_ok {
+                                    self.push_raw(" ");
+                                }
                                 self.push_raw("- ");
                                 self.push_raw(rest)
                             }
                         }
+                        glue_ok = true;
                     } else {
-                        // 's / 're: glued to the previous token
+                        if !glue_ok {
+                            // an apostrophe suffix needs a token to hang on: a comment will do
+                            self.push_raw(" (c)");
+                            self.st.comment = true;
+                        }
+                        self.tok();
                         self.push_raw(s);
                         self.st.glued_suffix = true;
+                        // a second suffix cannot be glued onto this one (`x's're` is one word)
+                        glue_ok = false;
                     }
                     self.last = Last::Word;
                 }
@@ -641,8 +659,10 @@ impl<'a> R<'a> {
                     if self.choice(self.o.layout, 2) == 1 {
                         self.push_raw(" ");
                     }
+                    self.tok();
                     self.push_raw(".");
                     self.last = Last::Sym;
+                    glue_ok = false;
                 }
             }
             first = false;
@@ -734,8 +754,8 @@ impl<'a> R<'a> {
                         }
                     }
                     self.list(value);
-                    let comma_ok = value.len() == 1 && !value[0].absorbs_comma();
-                    self.eol(comma_ok, true, false);
+                    // `let` takes an expression list: a trailing comma would continue it
+                    self.eol(false, true, false);
                 }
             }
             Stmt::PoeticNum { dest, rhs } => {
@@ -896,8 +916,7 @@ impl<'a> R<'a> {
                     Some(PushRhs::List(es)) => {
                         self.kw(Kw::With);
                         self.list(es);
-                        let comma_ok = es.len() == 1 && !es[0].absorbs_comma();
-                        self.eol(comma_ok, true, false);
+                        self.eol(false, true, false);
                     }
                     Some(PushRhs::Poetic(elems)) => {
                         self.kw(Kw::Like);
@@ -1000,7 +1019,10 @@ impl<'a> R<'a> {
         let n = p.blocks.len();
         for (k, b) in p.blocks.iter().enumerate() {
             // extra blank lines between top-level blocks are free
-            while self.choice(self.o.layout, 5) == 4 {
+            for _ in 0..3 {
+                if self.choice(self.o.layout, 5) != 4 {
+                    break;
+                }
                 self.blank_line();
             }
             for s in b {
